@@ -378,8 +378,9 @@ pub fn profile(name: &str) -> Profile {
             w_import_reg: 8,
             w_remove: 12,
             w_reopen: 8,
-            w_read: 6,
-            w_clock: 1,
+            w_read: 8,
+            w_clock: 6,
+            w_drain: 7,
             bogus_ctx_pct: 25,
             ..base
         },
